@@ -13,8 +13,14 @@
    One successor per action kind (arguments drawn with RandomElement) so that -simulate
    chooses uniformly among kinds; most kinds are aimed at calls that change the durable
    state.  On the compatibility surface channel c2 is kept in exact-proposal mode (only
-   exact appends write rows), which keeps its frontier readable for suffix replacements. *)
-EXTENDS MessageLogCrash, Json
+   exact appends write rows), which keeps its frontier readable for suffix replacements.
+
+   Every behaviour has a focus, drawn with its initial state: "mix" (everything), or, on the
+   compatibility surface, "hist" (epoch history: epochs begun at the log end, follower applies
+   that carry an epoch point, truncations of log and history that remove points) or "shrink"
+   (a retention state whose retained log-end floor equals the log end, then a suffix
+   replacement that ends BELOW the old log end). *)
+EXTENDS MessageLogCrashB, Json
 CONSTANTS Depth
 VARIABLE beh
 
@@ -27,7 +33,10 @@ SimChanSeq    == << "c1", "c2" >>
 Lasts  == [c \in Chans |-> LastOf(hist[c])]
 LastsP == [c \in Chans |-> LastOf(hist'[c])]
 
-SimInit == Init9 /\ beh = << [ev |-> ev, sn |-> Lasts, alts |-> << >>] >>
+SimInit == /\ Init9
+           /\ \E f \in (IF cfg.surface = "compat" THEN {"mix", "hist", "shrink", "batch"} ELSE {"mix", "mix2"}) :
+                 beh = << [ev |-> ev, sn |-> Lasts, alts |-> << >>, focus |-> f] >>
+Focus == beh[1].focus
 
 Pick(S) == IF S = {} THEN {} ELSE {RandomElement(S)}
 Plain == IF Compat THEN Chans \ {"c2"} ELSE Chans
@@ -37,7 +46,12 @@ CleanRecs(c) == {r \in [id : Fresh(c), from : Froms, no : Nos, p : Pays] : HasKe
 HomeRecs(c) == {r \in [id : {i \in Ids : Home(i) = c}, from : Froms, no : Nos, p : Pays] : TRUE}
 Ends(c) == {0} \cup {prop[c][q].last : q \in DOMAIN prop[c]}
 FreePids(c) == Pids \ DOMAIN prop[c]
-CutOK(c, to) == to >= CkHW(c) /\ (Typed /\ ret[c].has => to >= ret[c].local)
+CutOK(c, to) == to >= CkHW(c) /\ (Typed /\ ret[c].has => to >= ret[c].local) /\ (to >= Leo(c) \/ NoneAbove(c, to))
+NextEpoch(c) == IF eh[c] = << >> THEN 1 ELSE eh[c][Len(eh[c])].e + 1
+\* truncation targets that remove at least one epoch point
+PointCuts(c) == {eh[c][i].s - 1 : i \in {j \in 1..Len(eh[c]) : eh[c][j].s >= 1}}
+\* suffix replacements by one record that end below the log end
+ShortKeeps(c) == {e \in Ends(c) : e >= CkHW(c) /\ (ret[c].has => e >= ret[c].local) /\ e + 1 < Leo(c)}
 Seq1(r) == << r >>
 
 SimStep ==
@@ -100,17 +114,143 @@ SimStep ==
             IN R2 # {} /\ \E r2 \in Pick(R2), hw \in Pick(CkHW(c)..(keep + 2)) :
                  Replace(c, keep, << [pid |-> q1, recs |-> Seq1(r1)], [pid |-> q2, recs |-> Seq1(r2)] >>, hw)
   \/ \E c \in Pick(Exact) : \E keep \in Pick({e \in Ends(c) : e >= CkHW(c)}) : Replace(c, keep, << >>, CkHW(c))
+  \* ---- epoch history (compat)
+  \/ Compat /\ \E c \in Pick(Chans) : NextEpoch(c) \in Epochs /\ BeginEpoch(c, NextEpoch(c), Leo(c))
+  \/ Compat /\ \E c \in Pick(Plain) : CleanRecs(c) # {} /\ NextEpoch(c) \in Epochs /\
+        \E m \in Pick({"strict", "trusted"}), r \in Pick(CleanRecs(c)), hw \in Pick({0, Leo(c)}) : ApplyE(c, m, Seq1(r), hw, NextEpoch(c), Leo(c))
+  \/ Compat /\ \E c \in Pick(Chans) : \E to \in Pick(PointCuts(c) \cup {Leo(c)}) : to >= CkHW(c) /\ TruncLH(c, to)
+  \/ Compat /\ RandomElement(1..2) = 1 /\ \E c \in Pick(Chans) : \E to \in Pick(0..Leo(c)) : to >= CkHW(c) /\ TruncLH(c, to)
+  \* ---- a suffix replacement that ends below the log end
+  \/ \E c \in Pick(Exact) : ShortKeeps(c) # {} /\ CleanRecs(c) # {} /\ FreePids(c) # {} /\
+        \E keep \in Pick(ShortKeeps(c)), q \in Pick(FreePids(c)), r \in Pick(CleanRecs(c)) :
+           \E hw \in Pick({CkHW(c), keep + 1}) : Replace(c, keep, << [pid |-> q, recs |-> Seq1(r)] >>, hw)
   \* ---- restore cleanup (rare)
   \/ Compat /\ RandomElement(1..4) = 1 /\ \E c \in Pick(Chans) : RowSeqs(c) # {} /\ Discard(c)
   \* ---- reads
   \/ RandomElement(1..3) = 1 /\ \E c \in Pick(Chans) : LeoRead(c)
+
+\* ---- focus "hist": the epoch history and the calls that cut it
+HistStep ==
+  \/ \E c \in Pick(Plain) : CleanRecs(c) # {} /\ \E m \in Pick(Modes), r \in Pick(CleanRecs(c)) : CAppend(c, m, 0, Seq1(r))
+  \/ \E c \in Pick(Plain) : CleanRecs(c) # {} /\
+        \E r1 \in Pick(CleanRecs(c)) :
+          LET R2 == {r \in CleanRecs(c) : r.id # r1.id /\ (HasKey(r) /\ HasKey(r1) => KeyOf(r) # KeyOf(r1))}
+          IN R2 # {} /\ \E r2 \in Pick(R2) : CAppend(c, "strict", 0, << r1, r2 >>)
+  \/ \E c \in Pick(Exact) : CleanRecs(c) # {} /\ FreePids(c) # {} /\
+        \E q \in Pick(FreePids(c)), r \in Pick(CleanRecs(c)), m \in Pick({"strict", "alloc"}) : ExAppend(c, q, Leo(c), Seq1(r), m, 0)
+  \/ \E c \in Pick(Chans) : NextEpoch(c) \in Epochs /\ BeginEpoch(c, NextEpoch(c), Leo(c))
+  \/ \E c \in Pick(Chans) : Leo(c) > 0 /\ NextEpoch(c) \in Epochs /\ BeginEpoch(c, NextEpoch(c), Leo(c))
+  \/ \E c \in Pick(Plain) : CleanRecs(c) # {} /\ NextEpoch(c) \in Epochs /\
+        \E m \in Pick({"strict", "trusted"}), r \in Pick(CleanRecs(c)), hw \in Pick({0, Leo(c), Leo(c) + 1}) : ApplyE(c, m, Seq1(r), hw, NextEpoch(c), Leo(c))
+  \/ \E c \in Pick(Chans) : PointCuts(c) # {} /\ \E to \in Pick(PointCuts(c)) : to >= CkHW(c) /\ TruncLH(c, to)
+  \/ \E c \in Pick(Chans) : \E to \in Pick(0..Leo(c)) : to >= CkHW(c) /\ TruncLH(c, to)
+  \* refused points: not at the log end, an epoch that does not advance
+  \/ RandomElement(1..2) = 1 /\ \E c \in Pick(Chans) : \E e \in Pick(Epochs), s \in Pick({Leo(c), Leo(c) + 1}) : BeginEpoch(c, e, s)
+  \/ RandomElement(1..3) = 1 /\ \E c \in Pick(Chans) : \E e \in Pick(Epochs), s \in Pick(0..Leo(c)) : AppendHist(c, e, s)
+  \/ RandomElement(1..3) = 1 /\ \E c \in Pick(Chans) : \E t \in Pick(0..(Leo(c) + 1)) : HistTrunc(c, t)
+  \/ RandomElement(1..2) = 1 /\ \E c \in Pick(Chans) : \E to \in Pick(0..(Leo(c) + 1)) : CutOK(c, to) /\ CTruncate(c, to)
+  \/ RandomElement(1..2) = 1 /\ \E c \in Pick(Chans) : Leo(c) > 0 /\ \E hw \in Pick(1..Leo(c)) : CCkptMono(c, hw)
+
+\* ---- focus "shrink": the exact channel with a retention floor at the log end, then a shorter suffix
+ShrinkStep ==
+  \/ \E c \in Pick(Exact) : CleanRecs(c) # {} /\ FreePids(c) # {} /\
+        \E q \in Pick(FreePids(c)), r \in Pick(CleanRecs(c)), m \in Pick({"strict", "alloc"}), hw \in Pick({0, 0, Leo(c)}) :
+           (hw >= CkHW(c) \/ hw = 0) /\ ExAppend(c, q, Leo(c), Seq1(r), m, hw)
+  \/ \E c \in Pick(Exact) : CleanRecs(c) # {} /\ FreePids(c) # {} /\
+        \E q \in Pick(FreePids(c)), r1 \in Pick(CleanRecs(c)), m \in Pick({"strict", "alloc"}) :
+          LET R2 == {r \in CleanRecs(c) : r.id # r1.id /\ (HasKey(r) /\ HasKey(r1) => KeyOf(r) # KeyOf(r1))}
+          IN R2 # {} /\ \E r2 \in Pick(R2) : ExAppend(c, q, Leo(c), << r1, r2 >>, m, 0)
+  \/ \E c \in Pick(Exact) : Leo(c) > 1 /\ \E t \in Pick({1, 1, 2} \cap (1..Leo(c))) : CAdopt(c, t)
+  \/ \E c \in Pick(Exact) : ret[c].has /\ \E lim \in Pick({0, 1}) : CTrim(c, ret[c].local, lim)
+  \/ \E c \in Pick(Exact) : ShortKeeps(c) # {} /\ CleanRecs(c) # {} /\ FreePids(c) # {} /\
+        \E keep \in Pick(ShortKeeps(c)), q \in Pick(FreePids(c)), r \in Pick(CleanRecs(c)) :
+           \E hw \in Pick({CkHW(c), keep + 1}) : Replace(c, keep, << [pid |-> q, recs |-> Seq1(r)] >>, hw)
+  \/ \E c \in Pick(Exact) : ret[c].has /\ ShortKeeps(c) # {} /\ CleanRecs(c) # {} /\ FreePids(c) # {} /\
+        \E keep \in Pick(ShortKeeps(c)), q \in Pick(FreePids(c)), r \in Pick(CleanRecs(c)) :
+           Replace(c, keep, << [pid |-> q, recs |-> Seq1(r)] >>, CkHW(c))
+  \/ \E c \in Pick(Exact) : \E keep \in Pick({e \in Ends(c) : e >= CkHW(c) /\ (ret[c].has => e >= ret[c].local)}) : Replace(c, keep, << >>, CkHW(c))
+  \/ RandomElement(1..2) = 1 /\ \E c \in Pick(Exact) : Leo(c) > 0 /\ \E hw \in Pick(1..Leo(c)) : CCkptMono(c, hw)
+  \/ RandomElement(1..2) = 1 /\ \E c \in Pick(Exact) : \E to \in Pick(Ends(c)) : CutOK(c, to) /\ CTruncate(c, to)
+  \/ RandomElement(1..3) = 1 /\ \E c \in Pick(Plain) : CleanRecs(c) # {} /\ \E m \in Pick(Modes), r \in Pick(CleanRecs(c)) : CAppend(c, m, 0, Seq1(r))
+  \/ RandomElement(1..3) = 1 /\ \E c \in Pick(Chans) : LeoRead(c)
+
+\* ---- focus "batch": both channels exact-only, several items in ONE StoreAppendBatch call (MessageLogCrashB);
+\* sweep = the harness also enumerates the cancellation points of the call
+CleanBut(c, R) == {r \in CleanRecs(c) : \A x \in R : r.id # x.id /\ (HasKey(r) /\ HasKey(x) => KeyOf(r) # KeyOf(x))}
+WholeP(c) == {q \in DOMAIN prop[c] : \A s \in (prop[c][q].base + 1)..prop[c][q].last : s \in RowSeqs(c)}
+RowsOf(c, q) == [i \in 1..(prop[c][q].last - prop[c][q].base) |-> rows[c][prop[c][q].base + i]]
+BMode == {"strict", "alloc"}
+BatchStep ==
+  \* a single exact proposal (keeps the chains growing)
+  \/ \E c \in Pick(Chans) : CleanRecs(c) # {} /\ FreePids(c) # {} /\
+        \E q \in Pick(FreePids(c)), r \in Pick(CleanRecs(c)), m \in Pick(BMode), hw \in Pick({0, 0, Leo(c) + 1}) : ExAppend(c, q, Leo(c), Seq1(r), m, hw)
+  \* a proposal and its own retry in one call, the retry with or without a committed value; sometimes a further
+  \* proposal chained behind, before or after the retry
+  \/ \E c \in Pick(Chans) : CleanRecs(c) # {} /\ Cardinality(FreePids(c)) >= 2 /\
+        \E q1 \in Pick(FreePids(c)), r1 \in Pick(CleanRecs(c)), m \in Pick(BMode), more \in Pick({0, 0, 1, 2}), sw \in Pick({TRUE, TRUE, FALSE}) :
+          \E l1 \in Pick({Seq1(r1)} \cup {<< r1, x >> : x \in CleanBut(c, {r1})}) :
+            \E rhw \in Pick({0, 0, Leo(c) + 1, Leo(c) + Len(l1)}) :
+              LET i1 == BItem(c, q1, Leo(c), l1, m, 0)
+                  rt == BItem(c, q1, Leo(c), l1, m, rhw)
+                  R3 == CleanBut(c, {l1[i] : i \in 1..Len(l1)})
+              IN IF more = 0 \/ R3 = {} THEN Batch(<< i1, rt >>, sw)
+                 ELSE \E q2 \in Pick(FreePids(c) \ {q1}), r3 \in Pick(R3) :
+                        LET nx == BItem(c, q2, Leo(c) + Len(l1), Seq1(r3), m, 0)
+                        IN IF more = 1 THEN Batch(<< i1, rt, nx >>, sw) ELSE Batch(<< i1, nx, rt >>, sw)
+  \* a pipelined chain of two or three new proposals
+  \/ \E c \in Pick(Chans) : CleanRecs(c) # {} /\ Cardinality(FreePids(c)) >= 3 /\
+        \E q1 \in Pick(FreePids(c)), r1 \in Pick(CleanRecs(c)), m \in Pick(BMode), three \in Pick({TRUE, FALSE}), sw \in Pick({TRUE, FALSE}) : CleanBut(c, {r1}) # {} /\
+          \E q2 \in Pick(FreePids(c) \ {q1}), r2 \in Pick(CleanBut(c, {r1})), hw \in Pick({0, 0, Leo(c) + 1, Leo(c) + 2}), hw1 \in Pick({0, 0, Leo(c) + 1}) :
+             LET i1 == BItem(c, q1, Leo(c), Seq1(r1), m, hw1)
+                 i2 == BItem(c, q2, Leo(c) + 1, Seq1(r2), m, hw)
+                 R3 == CleanBut(c, {r1, r2})
+             IN IF three /\ R3 # {}
+                  THEN \E q3 \in Pick(FreePids(c) \ {q1, q2}), r3 \in Pick(R3) : Batch(<< i1, i2, BItem(c, q3, Leo(c) + 2, Seq1(r3), m, 0) >>, sw)
+                  ELSE Batch(<< i1, i2 >>, sw)
+  \* the second pipelined proposal repeats the key of the first (refused; the first one alone is the commit)
+  \/ \E c \in Pick(Chans) : Cardinality(FreePids(c)) >= 2 /\
+        LET K == {r \in CleanRecs(c) : HasKey(r)} IN K # {} /\
+        \E q1 \in Pick(FreePids(c)), r1 \in Pick(K), m \in Pick(BMode), sw \in Pick({TRUE, FALSE}) : Fresh(c) \ {r1.id} # {} /\
+          \E q2 \in Pick(FreePids(c) \ {q1}), id2 \in Pick(Fresh(c) \ {r1.id}) :
+             Batch(<< BItem(c, q1, Leo(c), Seq1(r1), m, 0), BItem(c, q2, Leo(c) + 1, Seq1([r1 EXCEPT !.id = id2]), m, 0) >>, sw)
+  \* items of two channels in one call: ONE physical commit; one channel possibly with a chain or a retry
+  \/ \E c \in Pick(Chans) : \E d \in Pick(Chans \ {c}) :
+        CleanRecs(c) # {} /\ CleanRecs(d) # {} /\ FreePids(c) # {} /\ FreePids(d) # {} /\
+        \E q1 \in Pick(FreePids(c)), r1 \in Pick(CleanRecs(c)), qd \in Pick(FreePids(d)), rd \in Pick(CleanRecs(d)), m \in Pick(BMode),
+           hw \in Pick({0, 0, Leo(c) + 1}), more \in Pick({0, 1, 2}), sw \in Pick({TRUE, FALSE}) :
+          LET i1 == BItem(c, q1, Leo(c), Seq1(r1), m, hw)
+              id == BItem(d, qd, Leo(d), Seq1(rd), m, 0)
+              R2 == CleanBut(c, {r1})
+          IN IF more = 1 /\ R2 # {} /\ FreePids(c) \ {q1} # {}
+               THEN \E q2 \in Pick(FreePids(c) \ {q1}), r2 \in Pick(R2) : Batch(<< i1, id, BItem(c, q2, Leo(c) + 1, Seq1(r2), m, 0) >>, sw)
+             ELSE IF more = 2 THEN Batch(<< i1, id, id >>, sw)
+             ELSE Batch(<< i1, id >>, sw)
+  \* the replay of a stored proposal (possibly raising the watermark) next to a new one, in either order
+  \/ \E c \in Pick(Chans) : WholeP(c) # {} /\ CleanRecs(c) # {} /\ FreePids(c) # {} /\
+        \E q \in Pick(WholeP(c)), q1 \in Pick(FreePids(c)), r1 \in Pick(CleanRecs(c)), m \in Pick(BMode), first \in Pick({TRUE, FALSE}), sw \in Pick({TRUE, FALSE}) :
+          \E hw \in Pick({0} \cup (IF CkHW(c) < prop[c][q].last THEN (CkHW(c) + 1)..prop[c][q].last ELSE {})) :
+             LET old == BItem(c, q, prop[c][q].base, RowsOf(c, q), "strict", hw)
+                 new == BItem(c, q1, Leo(c), Seq1(r1), m, 0)
+             IN IF first THEN Batch(<< old, new >>, sw) ELSE Batch(<< new, old >>, sw)
+  \* a gap behind the first item
+  \/ RandomElement(1..2) = 1 /\ \E c \in Pick(Chans) : CleanRecs(c) # {} /\ Cardinality(FreePids(c)) >= 2 /\
+        \E q1 \in Pick(FreePids(c)), r1 \in Pick(CleanRecs(c)), m \in Pick(BMode) : CleanBut(c, {r1}) # {} /\
+          \E q2 \in Pick(FreePids(c) \ {q1}), r2 \in Pick(CleanBut(c, {r1})) :
+             Batch(<< BItem(c, q1, Leo(c), Seq1(r1), m, 0), BItem(c, q2, Leo(c) + 2, Seq1(r2), m, 0) >>, FALSE)
+  \* truncation to the end of a proposal, a watermark, a read of the log end
+  \/ RandomElement(1..2) = 1 /\ \E c \in Pick(Chans) : \E to \in Pick(Ends(c)) : CutOK(c, to) /\ CTruncate(c, to)
+  \/ RandomElement(1..2) = 1 /\ \E c \in Pick(Chans) : Leo(c) > 0 /\ \E hw \in Pick(1..Leo(c)) : CCkptMono(c, hw)
+  \/ RandomElement(1..3) = 1 /\ \E c \in Pick(Chans) : LeoRead(c)
+
+FocusStep == IF Focus = "hist" THEN HistStep ELSE IF Focus = "shrink" THEN ShrinkStep
+             ELSE IF Focus = "batch" THEN BatchStep ELSE SimStep
 
 \* the snapshots between the pages of a restore cleanup of channel c
 Alts(c) == [i \in 1..(Len(hist'[c]) - Len(hist[c]) - 1) |-> hist'[c][Len(hist[c]) + i]]
 
 SimNext ==
   IF Len(beh) <= Depth
-    THEN SimStep /\
+    THEN FocusStep /\
          beh' = Append(beh, [ev |-> ev', sn |-> LastsP, alts |-> IF ev'.a = "Discard" THEN Alts(ev'.c) ELSE << >>])
     ELSE UNCHANGED cvars /\ beh' = Append(beh, [ev |-> [a |-> "End"], sn |-> 0, alts |-> << >>])
 
